@@ -1,6 +1,299 @@
-import Cello.Threads
+/-
+  C13 — threads are isolated from each other; join publishes; Mutex excludes.   (PARTIAL by nature, see the end)
+
+  Property theorems only; helper lemmas are in CelloProofs/Lemmas/Thr.lean.
+  Model: Cello/Threads.lean.  A *schedule* is any `List Ev`: any number of threads, any interleaving, any per-thread
+  programs (also adaptive ones: every actual execution is some list of events).  `run cfg s g` executes it and
+  returns the final process state and the trace `(event, outcome)`.  An event that cannot happen at that point (the
+  thread does not exist, is blocked, or has finished) leaves the state unchanged and is recorded with the outcome
+  `dead` / `blocked`, so every theorem below holds for *all* lists of events without an enabledness side condition.
+-/
+import CelloProofs.Lemmas.Thr
+import CelloProofs.Lemmas.ThrCounter
+import CelloProofs.Props.C07
+import CelloGen.Exn
+
 namespace Cello.Thr
-theorem C13_stub_frame (cfg : Cfg) (g : G) (t u : Tid) (op : LOp) (h : u ≠ t) :
-    (step cfg g (.loc t op)).1.thr u = g.thr u := by
-  simp [step, upd, h]
+
+/-- **Frame.** Whatever one thread does — allocate, collect, throw, catch, set thread-local values, lock, join — the
+    component of every *other* thread `u` (its collector registry, exception record, thread-local table, ledger of
+    finalised objects, published cell) is untouched.  The only thing another thread can do to `u` is to start it
+    (`spawn`: phase `unborn` → `ready`, nothing else changes). -/
+theorem C13_frame (cfg : Cfg) (g : G) (e : Ev) (u : Tid) (hu : e.tid ≠ u) :
+    (step cfg g e).1.thr u = g.thr u ∨
+    ((∃ t, e = .spawn t u) ∧ (g.thr u).phase = .unborn ∧ (step cfg g e).1.thr u = { g.thr u with phase := .ready }) := by
+  cases e with
+  | loc t op =>
+    left; rw [step_loc]
+    have : u ≠ t := fun h => hu (by simp [Ev.tid, h])
+    simp [upd_other _ _ _ _ this]
+  | spawn t v =>
+    rcases step_spawn cfg g t v with ⟨_, hph, hg⟩ | ⟨_, hg⟩
+    · by_cases hvu : v = u
+      · subst hvu; right; exact ⟨⟨t, rfl⟩, hph, by rw [hg]; simp [upd_same]⟩
+      · left; rw [hg]; have : u ≠ v := fun h => hvu h.symm
+        simp [upd_other _ _ _ _ this]
+    · left; rw [hg]
+  | join t w => left; rw [(step_sync_frame cfg g (.join t w) (by intros; simp) (by intros; simp)).1]
+  | lock t m => left; rw [(step_sync_frame cfg g (.lock t m) (by intros; simp) (by intros; simp)).1]
+  | trylock t m => left; rw [(step_sync_frame cfg g (.trylock t m) (by intros; simp) (by intros; simp)).1]
+  | unlock t m => left; rw [(step_sync_frame cfg g (.unlock t m) (by intros; simp) (by intros; simp)).1]
+  | winc t m c => left; rw [(step_sync_frame cfg g (.winc t m c) (by intros; simp) (by intros; simp)).1]
+  | ld t c => left; rw [(step_sync_frame cfg g (.ld t c) (by intros; simp) (by intros; simp)).1]
+  | st t c => left; rw [(step_sync_frame cfg g (.st t c) (by intros; simp) (by intros; simp)).1]
+  | rd t w => left; rw [(step_sync_frame cfg g (.rd t w) (by intros; simp) (by intros; simp)).1]
+
+/-- **The shared class cache is transparent.** Whatever the cache contains (whatever other threads looked up before, in
+    whatever order) a lookup returns the declared instance, and the cache keeps holding declared instances only. -/
+theorem C13_cache_transparent (cfg : Cfg) (c : Cache) (hc : CacheOK cfg c) (t : Tid) (ty cls : Nat) (ts : TS)
+    (hr : ts.phase = .running) :
+    (lstep cfg t c (.lookup ty cls) ts).2.2 = .bool (cfg.scan (ty, cls)) ∧
+    (lstep cfg t c (.lookup ty cls) ts).1 = ts ∧ CacheOK cfg (lstep cfg t c (.lookup ty cls) ts).2.1 := by
+  have h := lstep_spec hc t (.lookup ty cls) ts
+  simp only [lstepSpec, hr, if_true] at h
+  have h1 := congrArg Prod.fst h.1
+  have h2 := congrArg Prod.snd h.1
+  exact ⟨h2, h1, h.2⟩
+
+/-- **C13 non-interference.** For every schedule `s` (any number of threads, any interleaving), from every process state
+    whose class cache is valid, and for every thread `u`: the final component of `u` and the outcomes of all its local
+    operations are exactly those of `u` running **alone** — executing only the projection of the execution onto `u` (its
+    own local operations, and the moment it was spawned) with a private class cache `c0` — whatever the other threads
+    did in between. -/
+theorem C13_noninterference (cfg : Cfg) (s : List Ev) (g : G) (hc : CacheOK cfg g.cache) (u : Tid)
+    (c0 : Cache) (hc0 : CacheOK cfg c0) :
+    (run cfg s g).1.thr u = (solo cfg u (proj u (run cfg s g).2) c0 (g.thr u)).1 ∧
+    localOuts u (run cfg s g).2 = (solo cfg u (proj u (run cfg s g).2) c0 (g.thr u)).2 := by
+  have h := run_proj cfg u s g hc
+  rw [solo_eq_spec cfg u _ c0 _ hc0]
+  exact ⟨h.1, h.2.1⟩
+
+/-- the same from process start: main thread running, every other thread unborn, empty class cache -/
+theorem C13_noninterference_from_start (cfg : Cfg) (s : List Ev) (u : Tid) :
+    (run cfg s G.init).1.thr u = (solo cfg u (proj u (run cfg s G.init).2) [] (G.init.thr u)).1 ∧
+    localOuts u (run cfg s G.init).2 = (solo cfg u (proj u (run cfg s G.init).2) [] (G.init.thr u)).2 :=
+  C13_noninterference cfg s G.init (cacheOK_nil cfg) u [] (cacheOK_nil cfg)
+
+/-- **Two executions that agree on `u`'s projection agree on `u`.** Any two schedules — different numbers of threads,
+    different interleavings, different things done by the others — in which `u` itself performs the same operations
+    give `u` the same final component and the same outcomes. -/
+theorem C13_schedule_independent (cfg : Cfg) (s1 s2 : List Ev) (u : Tid)
+    (hp : proj u (run cfg s1 G.init).2 = proj u (run cfg s2 G.init).2) :
+    (run cfg s1 G.init).1.thr u = (run cfg s2 G.init).1.thr u ∧
+    localOuts u (run cfg s1 G.init).2 = localOuts u (run cfg s2 G.init).2 := by
+  have h1 := C13_noninterference_from_start cfg s1 u
+  have h2 := C13_noninterference_from_start cfg s2 u
+  rw [hp] at h1
+  exact ⟨h1.1.trans h2.1.symm, h1.2.trans h2.2.symm⟩
+
+/-- **C13 Mutex.** At every point of every schedule (`s1` is the part executed so far, `s2` any continuation) in which
+    no pthread primitive ran into undefined behaviour: for every Mutex `m`, the threads that are inside a section of `m`
+    — have acquired it by `lock`, a successful `trylock` or the entry of a `with` block and not yet released it — are at
+    most one, none is inside twice, and the one inside is the holder of the pthread mutex.
+    (`inside t m` counts acquisitions minus releases in the trace.) -/
+theorem C13_mutex (cfg : Cfg) (s1 s2 : List Ev) (_hub : noUB (run cfg (s1 ++ s2) G.init).2 = true) (m : Nat) :
+    (∀ t, inside t m (run cfg s1 G.init).2 = if (run cfg s1 G.init).1.holder m = some t then 1 else 0) ∧
+    (∀ t1 t2, inside t1 m (run cfg s1 G.init).2 ≥ 1 → inside t2 m (run cfg s1 G.init).2 ≥ 1 → t1 = t2) := by
+  have key := fun t => run_inside_init cfg t m s1
+  refine ⟨key, ?_⟩
+  intro t1 t2 h1 h2
+  rw [key t1] at h1
+  rw [key t2] at h2
+  by_cases a : (run cfg s1 G.init).1.holder m = some t1
+  · by_cases b : (run cfg s1 G.init).1.holder m = some t2
+    · rw [a] at b; exact Option.some.inj b
+    · simp [b] at h2
+  · simp [a] at h1
+
+/-- a `with (x in m) { counter++ }` block runs (outcome `num`) only when nobody is inside a section of `m` -/
+theorem C13_with_exclusive (cfg : Cfg) (s : List Ev) (t : Tid) (m c n : Nat)
+    (h : (step cfg (run cfg s G.init).1 (.winc t m c)).2 = .num n) :
+    ∀ t', inside t' m (run cfg s G.init).2 = 0 := by
+  intro t'
+  have hh : (run cfg s G.init).1.holder m = none := by
+    simp only [step] at h
+    split at h
+    · cases h
+    · split at h
+      · assumption
+      · cases h
+  rw [run_inside_init, hh]; simp
+
+/-- **Guarded increments are never lost.** In every schedule that keeps the locking discipline for counter `c` and
+    Mutex `m` (`Disc`: loads and stores of `c` are made by the holder of `m`, a store completes a load of the same
+    thread, `with`-increments of `c` use `m`, the holder does not release `m` between its load and its store) the final
+    value of the plain counter is exactly the number of increments completed — however the non-atomic `ld`/`st` halves
+    of the increments of different threads are interleaved with everything else. -/
+theorem C13_counter_exact (cfg : Cfg) (m c : Nat) (s : List Ev) (hD : Disc cfg m c s G.init (fun _ => false)) :
+    (run cfg s G.init).1.counter c = incs c (run cfg s G.init).2 := by
+  have h := run_counter cfg m c s G.init (fun _ => false) (by intro t ht; cases ht) hD
+  simpa [G.init] using h
+
+/-- **C13 join.** If `join u` returns (`joined`) at some point of a schedule, then thread `u` had finished
+    `Thread_Init_Run` (function and teardown) before, and in every continuation no event of `u` ever happens again
+    (each is recorded `dead`): every step of `u` precedes the return of `join u`. -/
+theorem C13_join (cfg : Cfg) (s1 s2 : List Ev) (t u : Tid)
+    (hj : (step cfg (run cfg s1 G.init).1 (.join t u)).2 = .joined) :
+    ((run cfg s1 G.init).1.thr u).phase = .done ∧
+    ∀ eo ∈ (run cfg s2 (step cfg (run cfg s1 G.init).1 (.join t u)).1).2, eo.1.tid = u → eo.2 = .dead := by
+  obtain ⟨hd, hthr⟩ := step_join_joined cfg _ t u hj
+  refine ⟨hd, ?_⟩
+  exact (run_done cfg u s2 _ (by rw [hthr]; exact hd)).2
+
+/-- **join publishes.** After `join u` has returned, every read of `u`'s published cell — by any thread, at any later
+    point of any continuation — yields the value `u` had written last, which is the value of `u`'s solo run; and
+    `u`'s component (ledger of finalised objects, thread-local table …) is final: nothing changes it any more. -/
+theorem C13_join_publishes (cfg : Cfg) (s1 s2 : List Ev) (t u : Tid)
+    (hj : (step cfg (run cfg s1 G.init).1 (.join t u)).2 = .joined) :
+    let g1 := (run cfg s1 G.init).1
+    let alone := (solo cfg u (proj u (run cfg s1 G.init).2) [] (G.init.thr u)).1
+    g1.thr u = alone ∧
+    (run cfg s2 (step cfg g1 (.join t u)).1).1.thr u = alone ∧
+    ∀ eo ∈ (run cfg s2 (step cfg g1 (.join t u)).1).2, ∀ r, eo.1 = .rd r u → eo.2 = .num alone.pub ∨ eo.2 = .dead := by
+  obtain ⟨hd, hthr⟩ := step_join_joined cfg _ t u hj
+  have hal := (C13_noninterference_from_start cfg s1 u).1
+  have hd' : (((step cfg (run cfg s1 G.init).1 (.join t u)).1).thr u).phase = .done := by rw [hthr]; exact hd
+  refine ⟨hal, ?_, ?_⟩
+  · rw [(run_done cfg u s2 _ hd').1, hthr]; exact hal
+  · intro eo hmem r he
+    have := run_rd_frozen cfg u s2 _ hd' eo hmem r he
+    rw [hthr, hal] at this
+    exact this
+
+/-- **C13 teardown / own collector.** In every schedule, every object that thread `t`'s collector ever finalised — by
+    `del`, by a collection, or by the teardown in `Thread_Init_Run` — and every object in its registry was allocated by
+    `t` itself: no thread finalises another thread's objects. -/
+theorem C13_teardown_own (cfg : Cfg) (s : List Ev) (t : Tid) :
+    (∀ o ∈ ((run cfg s G.init).1.thr t).fin, o.owner = t) ∧
+    (∀ g, ((run cfg s G.init).1.thr t).gc = some g → ∀ e ∈ g.reg, e.1.owner = t) := by
+  have h := run_own cfg s G.init own_init t
+  exact ⟨h.2, h.1⟩
+
+/-- the teardown step itself: when thread `t`'s function returns, the epilogue of `Thread_Init_Run` finalises exactly the
+    non-root entries of `t`'s own registry, removes the collector and the exception record, and changes no other thread -/
+theorem C13_teardown_step (cfg : Cfg) (g : G) (t : Tid) (gc : GC)
+    (hr : (g.thr t).phase = .running) (hg : (g.thr t).gc = some gc) :
+    let g' := (step cfg g (.loc t .end_)).1
+    (g'.thr t).fin = (g.thr t).fin ++ (gc.reg.filter (fun e => !e.2)).map (·.1) ∧
+    (g'.thr t).gc = none ∧ (g'.thr t).exc = none ∧ (g'.thr t).phase = .done ∧ (g'.thr t).tls = (g.thr t).tls ∧
+    ∀ u, u ≠ t → g'.thr u = g.thr u := by
+  rw [step_loc]
+  simp only [upd_same, lstep, lrun, hr, hg, if_true, GC.sweep]
+  refine ⟨by simp, trivial, trivial, trivial, trivial, ?_⟩
+  intro u hu
+  simp [upd_other _ _ _ _ hu]
+
+/-- `del` of another thread's object finalises nothing (it is looked up in the caller's registry only) -/
+theorem C13_foreign_del (cfg : Cfg) (s : List Ev) (t : Tid) (o : Obj) (ho : o.owner ≠ t) :
+    (step cfg (run cfg s G.init).1 (.loc t (.del o))).2 = .fin [] ∨
+    (step cfg (run cfg s G.init).1 (.loc t (.del o))).2 = .dead ∨
+    (step cfg (run cfg s G.init).1 (.loc t (.del o))).2 = .raised .keyError := by
+  have hown := (C13_teardown_own cfg s t).2
+  rw [step_loc]
+  simp only [lstep]
+  split
+  · simp only [lrun]
+    cases hg : ((run cfg s G.init).1.thr t).gc with
+    | none => right; right; rfl
+    | some g =>
+      left
+      have : g.reg.any (fun e => decide (e.1 = o)) = false := by
+        rw [List.any_eq_false]
+        intro e he
+        have := hown g hg e he
+        simp only [decide_eq_true_eq]
+        intro h
+        exact ho (by rw [← h]; exact this)
+      simp [GC.rem, this]
+  · right; left; rfl
+
+/-- **Exceptions are per thread.** In any process state, an exception program run by thread `t` (whose record has no
+    pending exception and room for the program's nesting) produces exactly the trace of the structured-exception
+    reference semantics (C07) — whatever the other threads' exception records contain — and touches no other thread. -/
+theorem C13_exn_isolated (cfg : Cfg) (hcons : cfg.consume = true) (g : G) (t : Tid) (p : Exn.Prog) (s0 : Exn.St)
+    (hr : (g.thr t).phase = .running) (he : (g.thr t).exc = some s0) (ha : s0.active = false)
+    (hn : s0.depth + Exn.nest p ≤ cfg.maxDepth) :
+    (∃ sg d, (step cfg g (.loc t (.exn p))).2 = .exn (Exn.eval p).1 sg d ∧ d = s0.depth ∧
+       (sg = .normal ↔ (Exn.eval p).2 = none)) ∧
+    ∀ u, u ≠ t → (step cfg g (.loc t (.exn p))).1.thr u = g.thr u := by
+  have hC := Exn.C07_machine_refines_reference cfg.maxDepth p s0 ha hn
+  rw [step_loc]
+  refine ⟨?_, fun u hu => by simp [upd_other _ _ _ _ hu]⟩
+  simp only [lstep, lrun, hr, he, if_true, hcons]
+  rcases hev : Exn.eval p with ⟨tr, _ | e⟩
+  · rw [hev] at hC
+    simp only [Exn.Agrees] at hC
+    exact ⟨_, _, by rw [hC.1], hC.2.2.1, by simp [hC.2.1]⟩
+  · rw [hev] at hC
+    simp only [Exn.Agrees] at hC
+    refine ⟨_, _, by rw [hC.1], hC.2.2.1, ?_⟩
+    rw [hC.2.2.2]
+    by_cases hd : s0.depth ≥ 1 <;> simp [hd]
+
+/-! ### the pthread error translation is as documented -/
+
+/-- `Mutex_Lock`, `Mutex_Trylock`, `Mutex_Unlock`, `Thread_Join`: success is success, EBUSY of trylock is `false`, and
+    the only error codes that raise are EINVAL (ValueError), EDEADLK on lock (ResourceError), EPERM on unlock
+    (ResourceError) and ESRCH on join (ValueError) -/
+theorem C13_error_translation :
+    lockTr .zero = none ∧ unlockTr .zero = none ∧ joinTr .zero = none ∧ trylockTr .zero = .ok true ∧
+    trylockTr .ebusy = .ok false ∧
+    lockTr .einval = some .valueError ∧ lockTr .edeadlk = some .resourceError ∧
+    trylockTr .einval = .error .valueError ∧
+    unlockTr .einval = some .valueError ∧ unlockTr .eperm = some .resourceError ∧
+    joinTr .einval = some .valueError ∧ joinTr .esrch = some .valueError :=
+  ⟨rfl, rfl, rfl, rfl, rfl, rfl, rfl, rfl, rfl, rfl, rfl, rfl⟩
+
+/-! ### non-vacuity: concrete schedules meet the hypotheses and exercise the interesting branches -/
+
+def cfgNow : Cfg := { consume := CelloGen.Exn.catchConsumes, maxDepth := CelloGen.Exn.maxDepth, scan := fun k => k.1 = 1 }
+
+/-- two workers contend for Mutex 0: the second `lock` is blocked, the `trylock` fails, after the release the second
+    thread gets in; no UB; thread 1 is inside exactly between its acquisition and its release -/
+def demoLocks : List Ev :=
+  [.spawn 0 1, .spawn 0 2, .loc 1 .begin_, .loc 2 .begin_, .lock 1 0, .lock 2 0, .trylock 2 0, .ld 1 0, .st 1 0,
+   .unlock 1 0, .trylock 2 0, .ld 2 0, .st 2 0]
+
+example :
+    noUB (run cfgNow demoLocks G.init).2 = true ∧
+    inside 1 0 (run cfgNow (demoLocks.take 9) G.init).2 = 1 ∧ inside 2 0 (run cfgNow (demoLocks.take 9) G.init).2 = 0 ∧
+    inside 1 0 (run cfgNow demoLocks G.init).2 = 0 ∧ inside 2 0 (run cfgNow demoLocks G.init).2 = 1 ∧
+    (run cfgNow demoLocks G.init).1.counter 0 = 2 := by decide
+
+/-- the contended schedule keeps the discipline of `C13_counter_exact` (counter 0 guarded by Mutex 0): two increments, value 2 -/
+example : Disc cfgNow 0 0 demoLocks G.init (fun _ => false) ∧ incs 0 (run cfgNow demoLocks G.init).2 = 2 := by decide
+
+/-- without the Mutex the model does exhibit the lost update (so `C13_mutex` is not vacuous about it) -/
+example : (run cfgNow [.spawn 0 1, .loc 1 .begin_, .ld 0 9, .ld 1 9, .st 0 9, .st 1 9] G.init).1.counter 9 = 1 := by decide
+
+/-- a worker allocates, is torn down, is joined; the joiner reads its value; a foreign `del` finalises nothing -/
+def demoJoin : List Ev :=
+  [.loc 0 (.new 1 false), .spawn 0 1, .loc 1 .begin_, .loc 1 (.new 1 false), .loc 1 (.new 2 true), .loc 1 (.churn 3),
+   .loc 0 (.del ⟨1, 1⟩), .loc 1 (.tset "a" ⟨1, 1⟩), .loc 1 (.collect []), .loc 1 (.pub 7), .join 0 1, .loc 1 .end_,
+   .join 0 1, .rd 0 1, .loc 1 (.pub 9), .rd 0 1]
+
+example :
+    ((run cfgNow demoJoin G.init).2.map (fun eo => notExecuted eo.2)) =
+      [false, false, false, false, false, false, false, false, false, false, true, false, false, false, true, false] ∧
+    ((run cfgNow demoJoin G.init).1.thr 1).fin.map (·.k) = [1000000, 1000001, 1000002, 1] ∧
+    ((run cfgNow demoJoin G.init).1.thr 0).fin = [] ∧
+    ((run cfgNow demoJoin G.init).1.thr 1).pub = 7 ∧
+    (proj 1 (run cfgNow demoJoin G.init).2).length = 10 ∧
+    localOuts 1 (run cfgNow demoJoin G.init).2 = (solo cfgNow 1 (proj 1 (run cfgNow demoJoin G.init).2) [] TS.unborn).2 := by
+  refine ⟨by decide, by decide, by decide, by decide, by decide, rfl⟩
+
+/-- the hypotheses of `C13_exn_isolated` hold for a running thread and a nested program -/
+example :
+    let g := (run cfgNow [.spawn 0 1, .loc 1 .begin_, .loc 0 (.exn (.tryCatch (.throw 3) [] (.stmt 1)))] G.init).1
+    (g.thr 1).phase = .running ∧ (g.thr 1).exc = some Exn.St.init ∧ cfgNow.consume = true ∧
+    Exn.St.init.depth + Exn.nest (.tryCatch (.tryCatch (.throw 1) [2] (.stmt 5)) [1] (.stmt 6)) ≤ cfgNow.maxDepth := by decide
+
+/-
+  PARTIAL — what these theorems do not say (and the harness covers by running real threads under schedule noise):
+  the model is sequentially consistent at operation granularity, so real data races, memory-model effects, the pthread
+  implementation and signal delivery cannot be exhibited in it; a collection is modelled with an arbitrary marked
+  set (the conservative stack scan is not modelled).  The theorems are about the bookkeeping: per-thread state is
+  reached only through `current(Thread)`, the Mutex wrappers are a holder machine, `join` returns after the epilogue.
+-/
+
 end Cello.Thr
